@@ -705,21 +705,28 @@ func runLock(c *mon.Case, sp c20Spec) {
 		}
 		return
 	}
+	// exactly N: nothing further may arrive.  Wait for whichever comes first — a further transmission (then the
+	// count was exceeded; a command that goes on sending never exits, so waiting for its exit first would only
+	// end in the watchdog) or the end of the process, whose end-of-stream follows all its data.
+	b, _, st := pe.recv(p, 150*time.Millisecond)
+	if st == "watchdog" {
+		stalled(c, p, "waiting for macat to exit after its last transmission was answered")
+		return
+	}
+	if st == "ok" {
+		if el := mon.Now() - p.t0; sp.Proto == "req" && el > 50*time.Second {
+			c.Inconclusive("an extra request arrived, but the run took %v and macat's REQ retry (60 s) may have fired", el)
+			return
+		}
+		c.Violate(fmt.Sprintf("send/count-exceeds:%s", sp.Proto), "--count %d: a further transmission (%d bytes, equal to data: %v) arrived after the %d expected ones\n%s", sp.N, len(b), bytes.Equal(b, data), sp.N, p.describe())
+		return
+	}
 	if !p.waitExit() {
 		stalled(c, p, "waiting for macat to exit after its last transmission was answered")
 		return
 	}
 	if p.code != 0 {
 		abnormal(c, p, "after all transmissions were answered")
-		return
-	}
-	// exactly N: nothing further may arrive.  The process is gone; end-of-stream on its connection follows all its data.
-	if b, _, st := pe.recv(p, 150*time.Millisecond); st == "ok" {
-		if sp.Proto == "req" && p.tExit-p.t0 > 50*time.Second {
-			c.Inconclusive("an extra request arrived, but the run took %v and macat's REQ retry (60 s) may have fired", p.tExit-p.t0)
-			return
-		}
-		c.Violate(fmt.Sprintf("send/count-exceeds:%s", sp.Proto), "--count %d: a further transmission (%d bytes, equal to data: %v) arrived after the %d expected ones\n%s", sp.N, len(b), bytes.Equal(b, data), sp.N, p.describe())
 		return
 	}
 	c.Count("lockstep_runs_count_exact", 1)
